@@ -13,11 +13,13 @@ import (
 	"bytes"
 	"crypto"
 	"crypto/ecdsa"
+	"crypto/ed25519"
 	"crypto/elliptic"
 	"crypto/rand"
 	"crypto/tls"
 	"crypto/x509"
 	"crypto/x509/pkix"
+	"encoding/asn1"
 	"fmt"
 	"io"
 	"math/big"
@@ -167,6 +169,47 @@ func vfStolenChain(chain tls.Certificate) tls.Certificate {
 	return tls.Certificate{Certificate: chain.Certificate, Leaf: chain.Leaf, PrivateKey: vfLyingSigner{pub: victim.Public(), real: k}}
 }
 
+// vfForgingSigner knows only the victim's PUBLIC ECDSA key. It reports an Ed25519 public key, so the endpoint it
+// is given to announces the digest-less {Ed25519, Ed25519} scheme, and it "signs" with an ECDSA signature that is
+// valid for the all-zero digest (v random, R = v*Q, r = R.x, s = r/v), which needs no private key. A verifier that
+// lets the certificate's key type pick the verification and the announced scheme pick the (absent) digest accepts it.
+type vfForgingSigner struct {
+	victim *ecdsa.PublicKey
+	pub    crypto.PublicKey
+}
+
+func (f vfForgingSigner) Public() crypto.PublicKey { return f.pub }
+func (f vfForgingSigner) Sign(io.Reader, []byte, crypto.SignerOpts) ([]byte, error) {
+	curve := f.victim.Curve
+	n := curve.Params().N
+	for {
+		v, err := rand.Int(rand.Reader, n)
+		if err != nil {
+			return nil, err
+		}
+		if v.Sign() == 0 {
+			continue
+		}
+		x, _ := curve.ScalarMult(f.victim.X, f.victim.Y, v.Bytes()) //nolint:staticcheck
+		r := new(big.Int).Mod(x, n)
+		sv := new(big.Int).Mul(r, new(big.Int).ModInverse(v, n))
+		sv.Mod(sv, n)
+		if r.Sign() == 0 || sv.Sign() == 0 {
+			continue
+		}
+
+		return asn1.Marshal(struct{ R, S *big.Int }{r, sv})
+	}
+}
+
+func vfForgedSchemeChain(chain tls.Certificate) tls.Certificate {
+	victim, _ := chain.PrivateKey.(crypto.Signer)
+	pub, _, _ := ed25519.GenerateKey(rand.Reader)
+
+	return tls.Certificate{Certificate: chain.Certificate, Leaf: chain.Leaf,
+		PrivateKey: vfForgingSigner{victim: victim.Public().(*ecdsa.PublicKey), pub: pub}} //nolint:forcetypeassert
+}
+
 // vfOwnLeafPlusVictimCert: a credential the rogue can really use (its own self-signed certificate, carrying the
 // victim's names, and its own key) followed by the victim's genuine certificate: every check that looks at
 // "a certificate of the chain" instead of the leaf is offered something valid to look at.
@@ -238,6 +281,7 @@ func vfC03Rows() []vfC03Row {
 						add("omit-certificate-and-verify", "reject")
 					}
 					if kind == "ecdsa" {
+						add("victim-chain-forged-digestless-scheme", "reject")
 						add("own-selfsigned-leaf-plus-victim-cert", exp("reject", "accept"))
 						add("unknown-ca", exp("reject", "accept"))
 						add("wrong-name", exp("reject", "accept"))
@@ -250,15 +294,15 @@ func vfC03Rows() []vfC03Row {
 				table := map[string]string{}
 				switch pol {
 				case NoClientCert:
-					table = map[string]string{"none": "accept", "valid": "accept", "unknown-ca": "accept", "expired": "accept", "stolen-chain-own-key": "accept", "omit-certificate-verify": "accept"}
+					table = map[string]string{"none": "accept", "valid": "accept", "unknown-ca": "accept", "expired": "accept", "stolen-chain-own-key": "accept", "omit-certificate-verify": "accept", "victim-chain-forged-digestless-scheme": "accept"}
 				case RequestClientCert:
-					table = map[string]string{"none": "accept", "valid": "accept", "unknown-ca": "accept", "expired": "accept", "stolen-chain-own-key": "either", "omit-certificate-verify": "either"}
+					table = map[string]string{"none": "accept", "valid": "accept", "unknown-ca": "accept", "expired": "accept", "stolen-chain-own-key": "either", "omit-certificate-verify": "either", "victim-chain-forged-digestless-scheme": "either"}
 				case RequireAnyClientCert:
-					table = map[string]string{"none": "reject", "valid": "accept", "unknown-ca": "accept", "expired": "accept", "stolen-chain-own-key": "reject", "omit-certificate-verify": "reject", "omit-certificate": "reject"}
+					table = map[string]string{"none": "reject", "valid": "accept", "unknown-ca": "accept", "expired": "accept", "stolen-chain-own-key": "reject", "omit-certificate-verify": "reject", "omit-certificate": "reject", "victim-chain-forged-digestless-scheme": "reject"}
 				case VerifyClientCertIfGiven:
-					table = map[string]string{"none": "accept", "valid": "accept", "unknown-ca": "reject", "expired": "reject", "stolen-chain-own-key": "reject", "omit-certificate-verify": "reject", "own-selfsigned-leaf-plus-victim-cert": "reject"}
+					table = map[string]string{"none": "accept", "valid": "accept", "unknown-ca": "reject", "expired": "reject", "stolen-chain-own-key": "reject", "omit-certificate-verify": "reject", "own-selfsigned-leaf-plus-victim-cert": "reject", "victim-chain-forged-digestless-scheme": "reject"}
 				case RequireAndVerifyClientCert:
-					table = map[string]string{"none": "reject", "valid": "accept", "unknown-ca": "reject", "expired": "reject", "stolen-chain-own-key": "reject", "omit-certificate-verify": "reject", "omit-certificate": "reject", "own-selfsigned-leaf-plus-victim-cert": "reject"}
+					table = map[string]string{"none": "reject", "valid": "accept", "unknown-ca": "reject", "expired": "reject", "stolen-chain-own-key": "reject", "omit-certificate-verify": "reject", "omit-certificate": "reject", "own-selfsigned-leaf-plus-victim-cert": "reject", "victim-chain-forged-digestless-scheme": "reject"}
 				}
 				for dev, e := range table {
 					ks := []string{"ecdsa"}
@@ -340,6 +384,8 @@ func vfC03Run(t *testing.T, res *vfResult, row vfC03Row) {
 				serverCert = pki.Leaf("ecdsa", "server-expired")
 			case "stolen-chain-own-key":
 				serverCert = vfStolenChain(serverCert)
+			case "victim-chain-forged-digestless-scheme":
+				serverCert = vfForgedSchemeChain(serverCert)
 			case "own-selfsigned-leaf-plus-victim-cert":
 				serverCert = vfOwnLeafPlusVictimCert(serverCert, vfServerName)
 			case "omit-certificate":
@@ -362,6 +408,8 @@ func vfC03Run(t *testing.T, res *vfResult, row vfC03Row) {
 				clientCert = pki.Leaf("ecdsa", "client-expired")
 			case "stolen-chain-own-key":
 				clientCert = vfStolenChain(clientCert)
+			case "victim-chain-forged-digestless-scheme":
+				clientCert = vfForgedSchemeChain(clientCert)
 			case "own-selfsigned-leaf-plus-victim-cert":
 				clientCert = vfOwnLeafPlusVictimCert(clientCert, "vf.client.example")
 			case "omit-certificate-verify":
